@@ -182,6 +182,8 @@ func (rt *runtime) cmplEvaluateNodeBracketExpression(node *nodeBracketExpression
 func (rt *runtime) cmplEvaluateNodeCallExpression(node *nodeCallExpression, withArgumentList []interface{}) Value {
 	this := Value{}
 	callee := rt.cmplEvaluateNodeExpression(node.callee)
+	// 11.2.3: GetValue(ref) (and its ReferenceError) comes before the arguments are evaluated
+	vl := callee.resolve()
 
 	argumentList := []Value{}
 	if withArgumentList != nil {
@@ -225,7 +227,6 @@ func (rt *runtime) cmplEvaluateNodeCallExpression(node *nodeCallExpression, with
 		file:   rt.scope.frame.file,
 	}
 
-	vl := callee.resolve()
 	if !vl.IsFunction() {
 		if name == "" {
 			// FIXME Maybe typeof?
